@@ -285,6 +285,7 @@ static inline struct vf_seq_%(G)s vf_seq_%(G)s_make_n(size_t n) { struct vf_seq_
 static inline struct vf_seq_%(G)s vf_seq_%(G)s_make_fill(size_t n, %(T)s v) { struct vf_seq_%(G)s s = vf_seq_%(G)s_make(); __CPROVER_assume(n <= VF_CAP); VF_FOR_CAP(if (i < n) s.d[i] = v;) s.n = n; return s; }
 static inline void vf_seq_%(G)s_resize(struct vf_seq_%(G)s* s, size_t n) { __CPROVER_assume(s->h + n <= s->cap); VF_FOR_CAP(if (s->n + i < n) memset(&s->d[s->h + s->n + i], 0, sizeof(%(T)s));) s->n = n; }
 static inline void vf_seq_%(G)s_resize_fill(struct vf_seq_%(G)s* s, size_t n, %(T)s v) { __CPROVER_assume(n <= VF_CAP && s->h + n <= s->cap); VF_FOR_CAP(if (s->n <= i && i < n) s->d[s->h + i] = v;) s->n = n; }
+static inline void vf_seq_%(G)s_assign_fill(struct vf_seq_%(G)s* s, size_t n, %(T)s v) { __CPROVER_assume(n <= s->cap && n <= VF_CAP); s->h = 0; VF_FOR_CAP(if (i < n) s->d[i] = v;) s->n = n; }
 static inline struct vf_seq_%(G)s vf_seq_%(G)s_copy(const struct vf_seq_%(G)s* o) { struct vf_seq_%(G)s s = vf_seq_%(G)s_make(); __CPROVER_assume(o->n <= VF_CAP); VF_FOR_CAP(if (i < o->n) s.d[i] = o->d[o->h + i];) s.n = o->n; return s; }
 '''
 
